@@ -243,10 +243,18 @@ def failing_decls(out):
 
 
 def load_known():
-    try:
-        return json.load(open(os.path.join(VERIF, 'known_findings.json')))['findings']
-    except OSError:
-        return []
+    """known_findings.json plus (while properties are being built) known_findings.d/*.json"""
+    res = []
+    paths = [os.path.join(VERIF, 'known_findings.json')]
+    d = os.path.join(VERIF, 'known_findings.d')
+    if os.path.isdir(d):
+        paths += [os.path.join(d, f) for f in sorted(os.listdir(d)) if f.endswith('.json')]
+    for p in paths:
+        try:
+            res.extend(json.load(open(p))['findings'])
+        except OSError:
+            pass
+    return res
 
 
 def main(argv):
